@@ -3,7 +3,9 @@
    blocks with hash ids and predecessor ids, both watermarks volatile and persisted, DA-included height volatile
    and persisted, last finalized height, and what the DA double holds, as (height, block id)).
    Proofs/ConcProofs.gcheck_reachable: the model satisfies gcheck = [] in every reachable state in which the
-   producer is between two steps; here the implementation's state is held against the same check. *)
+   producer is between two steps; here the implementation's state is held against the same check.  With the
+   watermark mutexes free (all loops have returned) gcheck demands persisted watermark = volatile watermark for
+   both kinds (g_wm_eq): a stored copy that fell behind because two writers' store writes were reordered shows here. *)
 From Coq Require Import NArith List Bool.
 From Verif Require Import Model.Conc.
 Import ListNotations.
@@ -25,6 +27,7 @@ Definition shared_of (c : ccase) : shared :=
   {| blk := blk_of (cc_blocks c); ht := cc_ht c; sth := cc_sth c;
      wmv := fun k => match k with Hdr => cc_wh c | Dat => cc_wd c end;
      wmp := fun k => match k with Hdr => cc_pwh c | Dat => cc_pwd c end;
+     mu := fun _ => 0;                   (* every loop has returned: nobody is inside setLastSubmittedHeight *)
      da := fun k => match k with Hdr => cc_dah c | Dat => cc_dad c end;
      mk := fun _ => [];
      di := cc_di c; pdi := cc_pdi c; fin := cc_fin c |}.
